@@ -162,6 +162,9 @@ pub fn alphabet(full: bool) -> Vec<Op> {
         }
     }
     // two's-complement fields: every width 1..=64 with values inside the width
+    // a two's-complement field of width 0 holds no bits (as write_msbs / write_lsbs with n = 0)
+    v.push(Op::Twoc { bits: 8, v: 0, n: 0 });
+    v.push(Op::Twoc { bits: 64, v: 0, n: 0 });
     for n in 1..=64u8 {
         let lo = if n == 64 { i64::MIN } else { -(1i64 << (n - 1)) };
         let hi = if n == 64 { i64::MAX } else { (1i64 << (n - 1)) - 1 };
@@ -565,7 +568,7 @@ pub fn run(args: &Args, rep: &Arc<Report>) {
     sweep::<ModelSink>(rep, &alpha, &reduced, thorough);
     run_user_sink(rep, thorough);
     rep.set_rule(&format!(
-        "operation alphabet of {} ops (write<u8..u64>, write_msbs/write_lsbs for every n in 0..=BITS, write_twoc for every width 1..=64, write_zeros, align_to_byte, write_bytes_aligned of 0..=3 bytes; {} operand values); for MemSink<u8>, MemSink<u64> and a user-defined sink that implements only the required operations (so that the trait's provided write_bytes_aligned / write_twoc / write_zeros run): every start offset 0..=63 x every op x every op, followed by a probe write(0xFFu8); after every step len(), stored bits, zero tail (and at depth 1 write_to_byte_slice / to_bitstring) are compared with an ideal MSB-first bit string{}; plus: every stream/frame/header/subframe of a corpus written into a user sink implementing only the required methods, into ByteSink and into MemSink<u64> must hold the same bits (each comparison is preceded by a write of the component that the sink refuses at its first / second operation); non-trivial = a (sink, start offset, first op) whose whole fan-out was executed and agreed",
+        "operation alphabet of {} ops (write<u8..u64>, write_msbs/write_lsbs for every n in 0..=BITS, write_twoc for every width 0..=64, write_zeros, align_to_byte, write_bytes_aligned of 0..=3 bytes; {} operand values); for MemSink<u8>, MemSink<u64> and a user-defined sink that implements only the required operations (so that the trait's provided write_bytes_aligned / write_twoc / write_zeros run): every start offset 0..=63 x every op x every op, followed by a probe write(0xFFu8); after every step len(), stored bits, zero tail (and at depth 1 write_to_byte_slice / to_bitstring) are compared with an ideal MSB-first bit string{}; plus: every stream/frame/header/subframe of a corpus written into a user sink implementing only the required methods, into ByteSink and into MemSink<u64> must hold the same bits (each comparison is preceded by a write of the component that the sink refuses at its first / second operation); non-trivial = a (sink, start offset, first op) whose whole fan-out was executed and agreed",
         alpha.len(),
         if thorough { "all 7" } else { "3 of 7" },
         if thorough { format!("; depth 3 over a reduced alphabet of {} ops", reduced.len()) } else { String::new() }
